@@ -557,6 +557,21 @@ func runC06(args []string) error {
 		return nil
 	}
 
+	// ---- streams outside the Coq models: receiver pool, usability sessions (c06_aux.go)
+	nPool, nSess := 60, 4
+	if *tier == "thorough" {
+		nPool, nSess = 600, 40
+	}
+	auxRng := newRng(*seed ^ 0xC06A)
+	pool := c06PoolGenerate(auxRng, nPool)
+	sessions := make([]c06Session, nSess)
+	for i := range sessions {
+		sessions[i] = c06SessionGenerate(auxRng)
+	}
+	poolID := func(i int) int { return len(cases) + 1 + i }
+	sessID := func(i int) int { return len(cases) + len(pool) + 1 + i }
+	asDefs := func(src string) string { return strings.Replace(src, "func main() {", "func Main() {", 1) }
+
 	// ---- implementation (child processes) and reference (compiled Go), concurrently
 	t0 := time.Now()
 	refDone := make(chan error, 1)
@@ -566,6 +581,16 @@ func runC06(args []string) error {
 		for i, c := range cases {
 			progs[i] = goProg{Name: fmt.Sprintf("c%05d", c.ID), Files: map[string]string{"main.go": c.Src, "defs": c.Prog.goSource("Main")}}
 		}
+		for i, pc := range pool {
+			progs = append(progs, goProg{Name: fmt.Sprintf("c%05d", poolID(i)), Files: map[string]string{"main.go": pc.Src, "defs": asDefs(pc.Src)}})
+			if pc.SrcY != "" {
+				progs = append(progs, goProg{Name: fmt.Sprintf("y%05d", poolID(i)), Files: map[string]string{"main.go": pc.SrcY, "defs": asDefs(pc.SrcY)}})
+			}
+		}
+		for i, ss := range sessions {
+			src := ss.goSource()
+			progs = append(progs, goProg{Name: fmt.Sprintf("c%05d", sessID(i)), Files: map[string]string{"main.go": src, "defs": asDefs(src)}})
+		}
 		var err error
 		refs, err = c06RefAll(progs, 10*time.Second)
 		refDone <- err
@@ -573,6 +598,12 @@ func runC06(args []string) error {
 	ins := make([]c06ChildIn, len(cases))
 	for i, c := range cases {
 		ins[i] = c06ChildIn{ID: c.ID, Src: c.Src, Defs: c.Prog.goSource("Main")}
+	}
+	for i, pc := range pool {
+		ins = append(ins, c06ChildIn{ID: poolID(i), Src: pc.Src, Aux: true})
+	}
+	for i := range sessions {
+		ins = append(ins, c06ChildIn{ID: sessID(i), Session: &sessions[i]})
 	}
 	outs := c06RunChildren(ins, 4*time.Second)
 	tImpl := time.Since(t0)
@@ -620,6 +651,75 @@ func runC06(args []string) error {
 			c06Events(implO.Stdout), c06Fin(implO.End), c06CarrierCoq(c.Impl), c06Events(c.Ref.Stdout), c06Fin(c.Ref.End)))
 	}
 
+	// ---- receiver pool: implementation vs compiled Go (and vs the rendering of model Y where they differ)
+	for i, pc := range pool {
+		id := poolID(i)
+		impl := outs[id]
+		ref := refs[fmt.Sprintf("c%05d", id)]
+		in := map[string]any{"region": pc.Region, "shape": "pool", "forms": pc.Forms, "loop": pc.Loop, "depth": pc.Depth, "source": pc.Src}
+		sm.CaseIndex[fmt.Sprint(id)] = in
+		sm.Evaluations++
+		sm.RefComparisons++
+		sm.count("stream:pool")
+		for _, f := range pc.Forms {
+			sm.count("pool-form:" + f)
+		}
+		distinct.add("pool", pc.Src)
+		implO := outcome{Stdout: impl.Stdout, End: impl.End}
+		if pc.SrcY != "" {
+			sm.count("region:" + pc.Region)
+			refY := refs[fmt.Sprintf("y%05d", id)]
+			if implO.Stdout != refY.Stdout || implO.End != refY.End {
+				sm.HarnessViolations = append(sm.HarnessViolations, refMismatch{ID: id, Region: "", Input: in, Impl: implO, Ref: refY,
+					Note: "interpreted method deferred in a loop: output differs from the rendering of model Y (receiver read when the call runs)"})
+			}
+		}
+		if implO.Stdout != ref.Stdout || implO.End != ref.End {
+			sm.RefMismatches = append(sm.RefMismatches, refMismatch{ID: id, Region: pc.Region, Input: in, Impl: implO, Ref: ref})
+		}
+		if len(sm.Samples) < 5 && i == 0 {
+			sm.Samples = append(sm.Samples, in)
+		}
+	}
+	// ---- usability sessions: every observed step vs the same session compiled
+	for i, ss := range sessions {
+		id := sessID(i)
+		impl := outs[id]
+		ref := refs[fmt.Sprintf("c%05d", id)]
+		var refLines []string
+		for _, l := range strings.Split(strings.TrimSuffix(ref.Stdout, "\n"), "\n") {
+			refLines = append(refLines, c06SessionCanon(l))
+		}
+		implLines := make([]string, len(impl.Lines))
+		for k, l := range impl.Lines {
+			implLines[k] = c06SessionCanon(l)
+		}
+		in := map[string]any{"region": "", "shape": "session", "steps": ss.Steps, "definitions": ss.Defs}
+		sm.CaseIndex[fmt.Sprint(id)] = in
+		sm.Evaluations++
+		sm.RefComparisons++
+		sm.count("stream:session")
+		sm.Distribution["session-steps"] += len(ss.Steps)
+		distinct.add("session", fmt.Sprint(ss.Steps))
+		if strings.Join(implLines, "\n") != strings.Join(refLines, "\n") || ref.End != "ok" || strings.HasPrefix(impl.End, "host-crash") {
+			first := ""
+			for k := 0; k < len(implLines) || k < len(refLines); k++ {
+				a, b := "<missing>", "<missing>"
+				if k < len(implLines) {
+					a = implLines[k]
+				}
+				if k < len(refLines) {
+					b = refLines[k]
+				}
+				if a != b {
+					first = fmt.Sprintf("first difference at step line %d: yaegi %q, compiled Go %q", k+1, a, b)
+					break
+				}
+			}
+			sm.RefMismatches = append(sm.RefMismatches, refMismatch{ID: id, Region: "", Input: in, Impl: map[string]any{"lines": implLines, "end": impl.End}, Ref: map[string]any{"lines": refLines, "end": ref.End}, Note: first})
+		}
+	}
+
 	hdr := "From Verif Require Import Defer.Model Defer.Cases.\nImport ListNotations.\nOpen Scope list_scope.\n"
 	per := 250
 	for i, k := 0, 0; i < len(rows); i, k = i+per, k+1 {
@@ -637,6 +737,8 @@ func runC06(args []string) error {
 	}
 	sm.Notes = append(sm.Notes,
 		"not generated: deferred builtin println (yaegi writes it to Options.Stdout, compiled Go to stderr), panic values of struct type (the run-time prints them differently from fmt), goroutines, runtime.Goexit, os.Exit/log.Fatal",
+		"pool stream (c06_aux.go): deferred method values of host types, interpreted methods with value/pointer receivers, function values in slices/fields/variables with 0..n arguments, the same defer statement executed in a loop and in a recursion on different receivers; compared with compiled Go (and, for interpreted methods in a loop, with the rendering of model Y); not evaluated in Coq",
+		"session stream (c06_aux.go): one interpreter; named function, methods, closure / method value / literal in package variables, global state and host-held function values are used from later Evals and natively after each of 13 kinds of panicking Eval; compared step by step with the same session compiled; not evaluated in Coq",
 		"every case is also run as Eval(definitions); Eval(\"Main()\"); Eval(\"Probe()\") through Interpreter.Eval on one interpreter: same output, error of type interp.Panic, carried value (reflect.Value layers, kind) as predicted by Y, Probe() = 4242")
 	sm.DistinctNontriv = len(distinct)
 	sm.Rule = "programs = function tables (call trees of depth <= 4) over print/set/defer(named|method|literal|host|close|delete|in a loop)/panic(int|string|error)/" +
